@@ -251,6 +251,68 @@ def check_reuse(h: Harness):
             run_case(h, step, rng.choice(FORMS), triples, k, mins, ints, floats, f"reuse:application-{app + 1}", step_obj=obj)
 
 
+def check_unordered_fitness_and_parallel(h: Harness):
+    """populations the model cannot rank (a NaN aggregate / NaN objectives: fitness functions do return NaN) and steps
+    driven by the ParallelEvaluator (duplicate objects in the population): only the COUNT is judged here"""
+    import warnings
+    from geneticengine.evaluation.parallel import ParallelEvaluator
+    from geneticengine.problems import MultiObjectiveProblem
+    warnings.filterwarnings("ignore", category=RuntimeWarning)   # numpy: median of an all-NaN slice (epsilon-lexicase)
+    rng = h.rng
+    nan = float("nan")
+    steps = [("elitism", "elitism"), ("novelty", "novelty"), ("tournament(2,False)", ("tournament", 2, False)), ("tournament(3,True)", ("tournament", 3, True)),
+             ("lexicase", ("lexicase", [False, True], False)), ("lexicase-eps", ("lexicase", [False, True], True)),
+             ("par[elitism,seq[tournament,mutation]]", ("par", ["elitism", ("seq", [("tournament", 2, False), ("mutation", 1001)])], [1, 1])),
+             ("seq[tournament,elitism]", ("seq", [("tournament", 2, False), "elitism"])),
+             ("xpar[elitism,crossover]", ("xpar", ["elitism", ("crossover", 1001)], [1, 2]))]
+    for trial in range(h.n(40, 400)):
+        n = rng.randint(2, 10)
+        rep = StubRep(2)
+        # aggregate = default aggregate of the components; some components (hence aggregates) are NaN
+        comps = [[rng.choice([0.0, 1.0, 2.0, nan, nan]), rng.choice([0.0, 1.0, 2.0, 3.0, nan])] for _ in range(n)]
+        if trial % 5 == 0:
+            comps = [[nan, nan] for _ in range(n)]
+        problem = MultiObjectiveProblem([False, True], lambda p: list(p[2]))
+        inds = [Individual((i, 0, tuple(c)), rep) for i, c in enumerate(comps)]
+        for sname, s_ in steps:
+            k = rng.choice([1, 2, n // 2, n - 1, n])
+            k = max(0, min(k, n))
+            form = rng.choice(FORMS)
+            res = sc.run_step(sc.real_step(s_), problem, rep, TwoStreamSource([rng.randrange(0, 50) for _ in range(200)], [rng.randrange(0, 1000) for _ in range(100)]),
+                              sc.as_form(form, inds, problem), k)
+            site = site_of(s_)
+            replay = {"step": sname, "components": [[repr(x) for x in c] for c in comps], "k": k, "form": form}
+            h.count("nan-fitness:" + sname)
+            h.seen(f"nan:{trial}:{sname}:{k}:{form}", nontrivial=n >= 2 and k >= 1)
+            if isinstance(res, str):
+                h.fail(site, "raises", f"{sname}.apply on a {form} of {n} individuals with components {replay['components']} (NaN objectives), target_size={k}: {res}", replay)
+            else:
+                h.holds(site, "wrong-count", ["prop_count", k, len(res)],
+                        f"{sname}.apply on a {form} of {n} individuals some of whose fitness values are NaN, target_size={k}, yielded {len(res)}", replay)
+    # the parallel evaluator inside steps; the population holds the same OBJECT more than once (a tournament's output)
+    for trial in range(h.n(3, 12)):
+        rep = StubRep(1)
+        problem = sc.make_problem([False])
+        base = sc.make_pop(rep, [(i, rng.randint(0, 5), [rng.randint(0, 3)]) for i in range(3)])
+        pop = base + base if trial % 2 == 0 else [base[0], base[1], base[0], base[2], base[1], base[0]]
+        for sname, s_ in (("elitism", "elitism"), ("seq[tournament,elitism]", ("seq", [("tournament", 2, False), "elitism"])),
+                          ("par[elitism,novelty]", ("par", ["elitism", "novelty"], [2, 1]))):
+            k = len(pop)
+            try:
+                res = list(sc.real_step(s_).apply(problem, ParallelEvaluator(), rep, TwoStreamSource([rng.randrange(0, 50) for _ in range(100)], []), list(pop), k, 1))
+            except Exception as e:  # noqa: BLE001
+                res = f"error:{type(e).__name__}"
+            replay = {"step": sname, "population_ids": [i.genotype[0] for i in pop], "k": k, "evaluator": "ParallelEvaluator"}
+            h.count("parallel-evaluator:" + sname)
+            h.seen(f"par-ev:{trial}:{sname}", nontrivial=True)
+            if isinstance(res, str):
+                h.fail(site_of(s_), "raises", f"{sname}.apply with the ParallelEvaluator on objects {replay['population_ids']}, target_size={k}: {res}", replay)
+            else:
+                h.holds(site_of(s_), "wrong-count", ["prop_count", k, len(res)],
+                        f"{sname}.apply with the ParallelEvaluator on a population that holds the same objects twice ({replay['population_ids']}), "
+                        f"target_size={k}, yielded {len(res)}", replay)
+
+
 def check_evaluate_step(h: Harness):
     rng = h.rng
     for n in range(0, 6):
@@ -470,6 +532,7 @@ def run(h: Harness):
     check_ranges(h)
     check_compositions(h)
     check_reuse(h)
+    check_unordered_fitness_and_parallel(h)
     check_single_steps(h)
     check_evaluate_step(h)
     check_initialisers(h)
